@@ -114,6 +114,75 @@ func main() {
 		wg.Wait()
 		total += k
 	}
+	// Many goroutines, insertions only, on ONE filter: insertions commute, so whatever the schedule the
+	// final bit array is the one a sequential run produces and every inserted item is present.  (The
+	// explorer's configurations have 2-3 threads; a defect that needs dozens of simultaneous callers -
+	// a bounded pool of scratch buffers with a fallback - is out of its reach and only met here.)
+	for round := 0; round < 20; round++ {
+		const ng, per = 64, 40
+		mk := func() *bloom.Filter {
+			return bloom.LoadFilter(wire.NewMsgFilterLoad(make([]byte, 4096), 8, uint32(round), wire.BloomUpdateAll))
+		}
+		shared, seq := mk(), mk()
+		op := func(g, i int) wire.OutPoint {
+			return wire.OutPoint{Hash: chainhash.Hash{byte(g), byte(i), byte(round), 0x6d}, Index: uint32(g*per + i)}
+		}
+		var wg sync.WaitGroup
+		start := make(chan struct{})
+		bad := make([]int, ng)
+		for g := 0; g < ng; g++ {
+			wg.Add(1)
+			go func(g int) {
+				defer wg.Done()
+				<-start
+				for i := 0; i < per; i++ {
+					o := op(g, i)
+					switch i % 3 {
+					case 0:
+						shared.AddOutPoint(&o)
+						if !shared.MatchesOutPoint(&o) {
+							bad[g]++
+						}
+					case 1:
+						shared.AddHash(&o.Hash)
+						if !shared.Matches(o.Hash[:]) {
+							bad[g]++
+						}
+					default:
+						item := append([]byte{byte(g), byte(i)}, itemX...)
+						shared.Add(item)
+						if !shared.Matches(item) {
+							bad[g]++
+						}
+					}
+				}
+			}(g)
+		}
+		close(start)
+		wg.Wait()
+		for g := 0; g < ng; g++ {
+			if bad[g] > 0 {
+				fmt.Printf("many-goroutine pass: goroutine %d did not find %d of its own insertions right after making them\n", g, bad[g])
+				os.Exit(3)
+			}
+			for i := 0; i < per; i++ {
+				o := op(g, i)
+				switch i % 3 {
+				case 0:
+					seq.AddOutPoint(&o)
+				case 1:
+					seq.AddHash(&o.Hash)
+				default:
+					seq.Add(append([]byte{byte(g), byte(i)}, itemX...))
+				}
+			}
+		}
+		if !bytes.Equal(shared.MsgFilterLoad().Filter, seq.MsgFilterLoad().Filter) {
+			fmt.Println("many-goroutine pass: the filter after 64 goroutines' insertions differs from the sequential result (insertions lost or misplaced)")
+			os.Exit(3)
+		}
+		total += ng
+	}
 	fmt.Printf("RACE-PASS ok configs=%d goroutines=%d\n", configs, total)
 	os.Exit(0)
 }
